@@ -189,6 +189,24 @@ def run_store(case, V, hooks, distinct):
                             V.append({"sig": "store:fresh-instance-other-content", "what": f"fresh instance resolved {repr(b2)[:100]}", "witness": wit})
                     except Exception as e:
                         V.append({"sig": "store:fresh-instance-raised", "what": f"{type(e).__name__}: {e}"[:200], "witness": wit})
+                # another instance of the same application purges the shared store; the first instance serializes the same content again:
+                # the reference it hands out must resolve (for everybody) to that content
+                if backend == "sqlite" and rng.random() < 0.3:
+                    hooks["purge_by_other_instance"] += 1
+                    pv = [copy.deepcopy(original), "purge-probe", rng.random()]
+                    pref = cds.serialize(copy.deepcopy(pv))
+                    if cds.is_reference(pref):
+                        admin = make_app(backend, td.db(), **conf)
+                        admin.client_data_store.purge()
+                        pref2 = cds.serialize(copy.deepcopy(pv))
+                        for who, store in (("serializing instance", cds), ("fresh instance", make_app(backend, td.db(), **conf).client_data_store)):
+                            try:
+                                b6 = store.resolve(pref2)
+                                if not same(pv, b6):
+                                    V.append({"sig": "store:reference-after-foreign-purge:other-content", "what": f"{who} resolved {repr(b6)[:100]}", "witness": wit})
+                            except Exception as e:
+                                V.append({"sig": f"store:reference-after-foreign-purge:unresolvable:{'same' if store is cds else 'fresh'}-instance",
+                                          "what": f"a reference handed out by serialize() after another instance purged the store does not resolve on the {who}: {type(e).__name__}: {e}"[:300], "witness": wit})
                 # aliasing probes on a value of their own (serialized exactly once, as a client would)
                 if isinstance(original, (list, dict)):
                     hooks["mutation_probes"] += 1
@@ -276,6 +294,37 @@ def run_ident(case, V, hooks, distinct):
         app = make_app(backend, td.db(), serializer_cls=SERIALIZERS[dom], app_id=f"c15i{case['seed']}")
         t_pos = app.task(basic.sig_pos)
         t_kw = app.task(basic.sig_kwonly)
+        t_def = app.task(basic.sig_alldef)
+        t_none = app.task(basic.sig_noargs)
+        # --- every parameter defaulted: the empty spelling is the same call as every explicit one
+        canon0 = Call(t_def, t_def.args(1, "x", c=None)).call_id
+        sp0 = {
+            "alldef-empty": lambda: [t_def()],
+            "alldef-first-positional": lambda: [t_def(1)],
+            "alldef-keywords": lambda: [t_def(b="x", a=1)],
+            "alldef-all": lambda: [t_def(1, "x", c=None)],
+            "alldef-parallelize-empty-tuples": lambda: list(t_def.parallelize([(), ()])),
+            "alldef-parallelize-empty-dicts": lambda: list(t_def.parallelize([{}, {"a": 1}])),
+            "alldef-args-object": lambda: list(t_def.parallelize([t_def.args()])),
+        }
+        for name, fn in sp0.items():
+            hooks["ident_spellings"] += 1
+            distinct.append(["ident", dom, backend, "alldef", name])
+            try:
+                invs = fn()
+            except Exception as e:
+                V.append({"sig": f"ident:raised:{name}", "what": f"{name}: {type(e).__name__}: {e}"[:200], "witness": {}})
+                continue
+            for inv in invs:
+                if inv.call.call_id != canon0:
+                    V.append({"sig": f"ident:spelling-changes-identity:{name}", "what": f"{name}: call_id {inv.call.call_id.args_id[:12]} != canonical {canon0.args_id[:12]} (kwargs {inv.arguments.kwargs!r})"[:300],
+                              "witness": {"spelling": name, "serialized": {k: v[:60] for k, v in inv.call.serialized_arguments.items()}}})
+                if inv.arguments.kwargs != {"a": 1, "b": "x", "c": None}:
+                    V.append({"sig": f"ident:arguments-not-bound:{name}", "what": f"{name}: the invocation's arguments are {inv.arguments.kwargs!r}, the body receives a=1 b='x' c=None", "witness": {"spelling": name}})
+        n1, n2 = t_none(), list(t_none.parallelize([(), ()]))
+        if any(i.call.call_id != n1.call.call_id for i in n2):
+            V.append({"sig": "ident:spelling-changes-identity:noargs-parallelize", "what": "a task without parameters: direct call and parallelize differ", "witness": {}})
+        app.broker.purge()
         for _ in range(case["n"]):
             a = gen_value(rng, "json", depth=2)  # JSON-domain scalars/lists are inside every serializer's domain
             if value_class(a) != "plain":
